@@ -91,9 +91,20 @@ func c05SPDX(r *rand.Rand) *jsonx.Value {
 	if r.Intn(4) == 0 {
 		rels.Elems = append(rels.Elems, jsonx.Obj(jsonx.M("spdxElementId", ref(gen.Pick(r, ids))), jsonx.M("relationshipType", jsonx.S("DEPENDS_ON")), jsonx.M("relatedSpdxElement", raw(gen.Pick(r, []string{"NOASSERTION", "NONE"})))))
 	}
+	if r.Intn(6) == 0 {
+		// the document "describes" a special value
+		rels.Elems = append(rels.Elems, jsonx.Obj(jsonx.M("spdxElementId", raw("SPDXRef-DOCUMENT")), jsonx.M("relationshipType", jsonx.S("DESCRIBES")), jsonx.M("relatedSpdxElement", raw(gen.Pick(r, []string{"NOASSERTION", "NONE"})))))
+	}
+	if r.Intn(8) == 0 {
+		// special value on the left-hand side
+		rels.Elems = append(rels.Elems, jsonx.Obj(jsonx.M("spdxElementId", raw(gen.Pick(r, []string{"NOASSERTION", "NONE"}))), jsonx.M("relationshipType", jsonx.S("CONTAINS")), jsonx.M("relatedSpdxElement", ref(gen.Pick(r, ids)))))
+	}
 	doc.Set("relationships", rels)
-	if r.Intn(2) == 0 {
+	switch r.Intn(6) {
+	case 0, 1, 2:
 		doc.Set("documentDescribes", jsonx.Arr(ref(gen.Pick(r, ids))))
+	case 3:
+		doc.Set("documentDescribes", jsonx.Arr(raw(gen.Pick(r, []string{"NONE", "NOASSERTION"})), ref(gen.Pick(r, ids))))
 	}
 	return doc
 }
